@@ -74,6 +74,9 @@ pub struct WorkerOut {
     pub sim_ns: u64,
     pub sim_calls: u64,
     pub stopped_early: bool,
+    /// (milliseconds, index) of the index that took longest; peak resident set of the worker in MiB
+    pub slowest: (u64, u64),
+    pub peak_rss_mib: u64,
 }
 
 impl WorkerOut {
@@ -90,6 +93,8 @@ impl WorkerOut {
             "sim_ns": self.sim_ns,
             "sim_calls": self.sim_calls,
             "stopped_early": self.stopped_early,
+            "slowest": [self.slowest.0, self.slowest.1],
+            "peak_rss_mib": self.peak_rss_mib,
         })
     }
 }
@@ -116,8 +121,13 @@ pub fn worker(prop: &str, seed: u64, w: u64, nw: u64, count: u64, out_path: &str
         // world that moves more than 4 GiB of bytes gets more time
         let limit = if sc.tags.iter().any(|t| t.starts_with("over-")) { 240 } else { 25 };
         arm_watchdog(limit);
+        let t_idx = std::time::Instant::now();
         let ev = oracle::evaluate(prop, &sc);
         disarm_watchdog();
+        let ms = t_idx.elapsed().as_millis() as u64;
+        if ms >= out.slowest.0 {
+            out.slowest = (ms, i);
+        }
         out.evaluations += 1;
         out.runs += ev.runs;
         out.sim_ns = out.sim_ns.saturating_add(ev.sim_ns);
@@ -148,6 +158,11 @@ pub fn worker(prop: &str, seed: u64, w: u64, nw: u64, count: u64, out_path: &str
         }
         i += nw;
     }
+    out.peak_rss_mib = unsafe {
+        let mut ru: libc::rusage = std::mem::zeroed();
+        libc::getrusage(libc::RUSAGE_SELF, &mut ru);
+        (ru.ru_maxrss as u64) >> 10
+    };
     let s = serde_json::to_string(&out.to_json()).unwrap();
     if std::fs::write(out_path, s).is_err() {
         return 2;
@@ -275,6 +290,11 @@ pub fn check(prop: &str, tier: &str) -> i32 {
         merged.sim_ns = merged.sim_ns.saturating_add(v["sim_ns"].as_u64().unwrap_or(0));
         merged.sim_calls += v["sim_calls"].as_u64().unwrap_or(0);
         merged.stopped_early |= v["stopped_early"].as_bool().unwrap_or(false);
+        let sl = (v["slowest"][0].as_u64().unwrap_or(0), v["slowest"][1].as_u64().unwrap_or(0));
+        if sl.0 >= merged.slowest.0 {
+            merged.slowest = sl;
+        }
+        merged.peak_rss_mib = merged.peak_rss_mib.max(v["peak_rss_mib"].as_u64().unwrap_or(0));
         for h in v["sigs"].as_array().cloned().unwrap_or_default() {
             if let Some(x) = h.as_str().and_then(|s| u64::from_str_radix(s, 16).ok()) {
                 merged.sigs.insert(x);
@@ -464,6 +484,9 @@ pub fn check(prop: &str, tier: &str) -> i32 {
 
     let wall = t0.elapsed().as_secs_f64();
     crate::evidence::write(prop, tier, seed, &merged, nviol, wall, nw);
+    // margin of the per-index watchdog on this machine (25 s of CPU time, more for the "over-" worlds
+    // and after large transfers)
+    println!("mdsim: slowest index {} took {} ms; peak resident set of a worker {} MiB", merged.slowest.1, merged.slowest.0, merged.peak_rss_mib);
     println!(
         "mdsim: {} evaluations ({} runs), {} distinct non-trivial signatures, {:.1}s, exit {}",
         merged.evaluations,
@@ -569,6 +592,7 @@ pub fn replay(path: &str) -> i32 {
 /// timer can end it. The limit is on CPU time consumed (robust when the machine is busy: a slow but
 /// progressing run is not killed), with a generous wall-clock alarm behind it for a real block.
 pub fn arm_watchdog(cpu_seconds: u32) {
+    WATCHDOG_BASE.store(cpu_seconds, std::sync::atomic::Ordering::Relaxed);
     set_prof_timer(cpu_seconds as i64);
     unsafe {
         libc::alarm(cpu_seconds.saturating_mul(12));
@@ -576,9 +600,32 @@ pub fn arm_watchdog(cpu_seconds: u32) {
 }
 
 pub fn disarm_watchdog() {
+    WATCHDOG_BASE.store(0, std::sync::atomic::Ordering::Relaxed);
     set_prof_timer(0);
     unsafe {
         libc::alarm(0);
+    }
+}
+
+/// the limit the watchdog was armed with (0: not armed)
+static WATCHDOG_BASE: std::sync::atomic::AtomicU32 = std::sync::atomic::AtomicU32::new(0);
+
+/// Progress the watchdog cannot see by itself starts it afresh: every 2^20 simulated calls of a run
+/// (`bytes` = 0; their number is bounded by the run's call budget), and a simulated call that moves
+/// `bytes` (tens of megabytes or more), with one second per 16 MiB on top of the limit: the cost of such a call, and of what the writer then does
+/// with the bytes, grows with its size and with how slowly the machine faults fresh memory in (a 2 GiB
+/// read that takes 5 s on one machine took more than 25 s of CPU time on another and was reported as a
+/// hang). A loop of such calls ends at the run's byte budget (`kernel::max_bytes_moved`), a CPU-only
+/// loop after such a call at the renewed limit.
+pub fn watchdog_credit(bytes: u64) {
+    let base = WATCHDOG_BASE.load(std::sync::atomic::Ordering::Relaxed);
+    if base == 0 {
+        return;
+    }
+    let limit = base.saturating_add((bytes >> 24).min(3600) as u32);
+    set_prof_timer(limit as i64);
+    unsafe {
+        libc::alarm(limit.saturating_mul(12));
     }
 }
 
